@@ -207,7 +207,7 @@ func (c *c14t) viewStr(tr *BestBlockTracker) string {
 // epoch delivered (what a correct tracker reaches after finitely many steps),
 // or until the timeout; then reports the settled view.
 func (c *c14t) sync(n *c14tNotifier, tr *BestBlockTracker, stopped bool) {
-	deadline := time.Now().Add(3 * time.Second)
+	deadline := time.Now().Add(10 * time.Second)
 	timedOut := false
 	for i := 0; ; i++ {
 		if len(n.ch) == 0 {
